@@ -22,6 +22,8 @@ type Lexer struct {
 	top         int
 
 	heredocLabel []byte
+	escPos       int // position and backslash run length of the last isEscaped call
+	escRun       int
 	tokenPool    *token.Pool
 	positionPool *position.Pool
 	newLines     NewLines
@@ -74,9 +76,34 @@ func (lex *Lexer) addFreeFloatingToken(t *token.Token, id token.ID, ps, pe int) 
 	t.FreeFloating = append(t.FreeFloating, skippedTkn)
 }
 
+// isEscaped tells whether the byte at p is preceded by an odd number of
+// backslashes. It is called for increasing p while a string is scanned, so the
+// length of the backslash run is carried over from the previous call instead
+// of being counted again.
+func (lex *Lexer) isEscaped(p int) bool {
+	if lex.escPos == p && p > 0 {
+		return lex.escRun%2 == 1
+	}
+
+	n := 0
+	if p > 0 && lex.data[p-1] == '\\' {
+		if lex.escPos == p-1 && p > 1 {
+			n = lex.escRun + 1
+		} else {
+			for i := p - 1; i >= 0 && lex.data[i] == '\\'; i-- {
+				n++
+			}
+		}
+	}
+
+	lex.escPos, lex.escRun = p, n
+
+	return n%2 == 1
+}
+
 func (lex *Lexer) isNotStringVar() bool {
 	p := lex.p
-	if lex.data[p-1] == '\\' && lex.data[p-2] != '\\' {
+	if lex.isEscaped(p) {
 		return true
 	}
 
@@ -97,7 +124,7 @@ func (lex *Lexer) isNotStringVar() bool {
 
 func (lex *Lexer) isNotStringEnd(s byte) bool {
 	p := lex.p
-	if lex.data[p-1] == '\\' && lex.data[p-2] != '\\' {
+	if lex.isEscaped(p) {
 		return true
 	}
 
